@@ -2,6 +2,7 @@
 from __future__ import annotations
 
 import importlib
+import copy
 import json
 import math
 import sys
@@ -407,12 +408,23 @@ class Universe:
 
     def make(self, inst: dict) -> Any:
         cid = inst["cls"]
-        kw = {f["name"]: self.pyval(f["ty"], inst["typed"][f["name"]]) for f in self.fields[cid] if f["name"] in inst["typed"]}
+        unset = inst.get("unset", {})
+        kw = {f["name"]: self.pyval(f["ty"], inst["typed"][f["name"]]) for f in self.fields[cid]
+              if f["name"] in inst["typed"] and f["name"] not in unset}
         c = self.cls[cid]
         if self.kind(cid) == "s":
             ev = c(result=inst.get("result"), **kw)
         else:
             ev = c(**kw)
+        for f in self.fields[cid]:
+            if unset.get(f["name"]) == "inplace":
+                box = getattr(ev, f["name"])  # this instance's own copy of the default container
+                val = self.pyval(f["ty"], inst["typed"][f["name"]])
+                box.clear()
+                if isinstance(box, list):
+                    box.extend(val)
+                else:
+                    box.update(val)
         for k, v in inst.get("data", {}).items():
             ev[k] = v
         return ev
@@ -730,6 +742,16 @@ def gen_classes(rng) -> list[dict]:
 
 def gen_inst(rng, cid: str, m: dict) -> dict:
     typed = {f["name"]: gen_val(rng, f["ty"]) for f in m["fields"]}
+    # fields with a default may be left UNSET at construction: they then hold the default, or -- containers -- are
+    # filled IN PLACE afterwards (ev.tags.append(..)): still a typed field of the event that must survive a round trip
+    unset: dict[str, str] = {}
+    for f in m["fields"]:
+        if "default" in f and rng.random() < 0.4:
+            if f["ty"][0] in ("list", "dict") and rng.random() < 0.75:
+                unset[f["name"]] = "inplace"
+            else:
+                unset[f["name"]] = "default"
+                typed[f["name"]] = copy.deepcopy(f["default"])
     data: dict[str, Any] = {}
     if not m["plain"] and rng.random() < 0.75:
         for _ in range(rng.randint(1, 4)):
@@ -742,6 +764,8 @@ def gen_inst(rng, cid: str, m: dict) -> dict:
                 k = gen_str(rng)
             data[k] = gen_json(rng, 2)
     inst: dict[str, Any] = {"cls": cid, "typed": typed, "data": data}
+    if unset:
+        inst["unset"] = unset
     if m["stop"]:
         inst["result"] = None if rng.random() < 0.3 else gen_json(rng, 3)
     return inst
